@@ -303,14 +303,29 @@ fn kind(out: &mut Vec<GSpec>) {
         cfgs.push(Cfg {
             name: format!("wsk{}", k),
             skip: vec![RuleSpec::helper("WHITESPACE", k, "\"#\" ~ \" \"")],
-            quick_bodies: if k == 'C' || k == 'X' { vec![0] } else { vec![] },
-            thorough_bodies: if k == 'C' || k == 'X' { vec![4] } else { vec![0, 4] },
+            quick_bodies: if k == 'C' || k == 'X' || k == 'N' { vec![0] } else { vec![] },
+            thorough_bodies: if k == 'C' || k == 'X' || k == 'N' { vec![4] } else { vec![0, 4] },
         });
         cfgs.push(Cfg {
             name: format!("cmk{}", k),
             skip: vec![RuleSpec::helper("WHITESPACE", 'S', "\" \""), RuleSpec::helper("COMMENT", k, "\"#\" ~ \"#\"")],
             quick_bodies: vec![],
             thorough_bodies: vec![0],
+        });
+    }
+    // COMMENT only / WHITESPACE only, declared normal or silent, with a body whose atomic matching matters
+    for k in ['N', 'S', 'A', 'C', 'X'] {
+        cfgs.push(Cfg {
+            name: format!("cmo{}", k),
+            skip: vec![RuleSpec::helper("COMMENT", k, "\"#\" ~ \"b\"")],
+            quick_bodies: if k == 'N' || k == 'S' { vec![0] } else { vec![] },
+            thorough_bodies: if k == 'N' || k == 'S' { vec![4] } else { vec![0] },
+        });
+        cfgs.push(Cfg {
+            name: format!("wso{}", k),
+            skip: vec![RuleSpec::helper("WHITESPACE", k, "\" \" ~ \"b\"*")],
+            quick_bodies: if k == 'N' { vec![0] } else { vec![] },
+            thorough_bodies: if k == 'N' { vec![3] } else { vec![0] },
         });
     }
     for cfg in cfgs {
